@@ -47,7 +47,7 @@ def main():
                      "kind_free_text": "explicit TLA+ specification (/verif/spec) checked by TLC: bounded model checking of the specification "
                                        "plus trace validation of executions recorded from the real code by the Rust harness /verif/harness"}],
         "checks": checks,
-        "notes": "All checks: exit 0 held / exit 1 + VIOLATION line / exit 2 tool error. Known findings and fixed defects: /verif/known_findings.json. See DESIGN.md.",
+        "notes": "All checks: exit 0 held / exit 1 + VIOLATION line / exit 2 tool error. Known findings and fixed defects: /verif/known_findings.json. Seeded changes: /verif/seeded. Extended coverage of the specification beyond the listed properties (bin/check X01 ... X08, not claimed here): DESIGN.md section 11.5. See DESIGN.md.",
         "not_applicable": na,
     }
     json.dump(m, open(os.path.join(ROOT, "MANIFEST.json"), "w"), indent=1)
